@@ -25,6 +25,7 @@ from __future__ import annotations
 import asyncio
 import datetime
 import ipaddress
+import logging
 import os
 import random
 import shutil
@@ -49,6 +50,10 @@ _ctx_cache: dict = {}
 
 class PeerTimeout(Exception):
     pass
+
+
+class PipeClosed(Exception):
+    """The TLS session we want to write into has been shut down by the other side."""
 
 
 # ---------------------------------------------------------------------------
@@ -147,7 +152,10 @@ class PyTls:
         return self.out.read()
 
     def write(self, data: bytes):
-        self.obj.write(data)
+        try:
+            self.obj.write(data)
+        except ssl.SSLError as e:
+            raise PipeClosed(str(e)) from None
 
     def read(self):
         """-> (plaintext, closed: None|"close_notify"|"eof"|"error:...")"""
@@ -257,7 +265,10 @@ class OsslTls:
                 return bytes(out)
 
     def write(self, data: bytes):
-        self.conn.sendall(data)
+        try:
+            self.conn.sendall(data)
+        except self.SSL.Error as e:
+            raise PipeClosed(repr(e)) from None
 
     def read(self):
         SSL = self.SSL
@@ -416,10 +427,13 @@ async def do_handshake(ep, pipe, *, cuts=(), gaps=(), seg=0, gap=0.0):
         st, why = ep.handshake()
         out = ep.pull()
         if out:
-            if first:
-                await pipe.send(out, cuts=cuts, gaps=gaps, seg=seg, gap=gap)
-            else:
-                await pipe.send(out, seg=seg, gap=gap)
+            try:
+                if first:
+                    await pipe.send(out, cuts=cuts, gaps=gaps, seg=seg, gap=gap)
+                else:
+                    await pipe.send(out, seg=seg, gap=gap)
+            except PipeClosed:
+                return False, why or "pipe_closed"
             first = False
         if st == "done":
             return True, None
@@ -516,6 +530,7 @@ class Obs:
         self.cafile = CA_FILE
         self.ca_subject = None
         self.ca_der_chain: list[bytes] = []
+        self.flow_crashes: dict = {}      # flow idx (or None) -> [{"exc", "where", "msg"}]
 
 
 # ---------------------------------------------------------------------------
@@ -536,6 +551,13 @@ def mode_string(sc) -> str:
     if m == "reverse_tls":
         return f"reverse:tls://{host}:{port}"
     raise ValueError(m)
+
+
+def _client_cuts(cuts):
+    """mitmproxy documents that a client whose first segment is shorter than 3 bytes is not taken
+    for a TLS client (net.tls.starts_like_tls_record); the first segment of a ClientHello is
+    therefore never cut below 3 bytes."""
+    return [c for c in cuts if c >= 3]
 
 
 def _hostport(host: str, port: int) -> str:
@@ -619,6 +641,36 @@ def run(sc: dict, keep_log: bool = False) -> Obs:
         w.policy = policy
         w.hook_listeners.append(listener)
 
+        # per-flow attribution of exceptions the proxy logs (addon errors, layer crashes): walk the
+        # traceback for a frame that knows the connection context
+        class _FlowCrash(logging.Handler):
+            def emit(self, record):
+                if not record.exc_info or record.exc_info[1] is None:
+                    return
+                e = record.exc_info[1]
+                t = e.__traceback__
+                idx = None
+                last = None
+                while t is not None:
+                    last = t
+                    loc = t.tb_frame.f_locals
+                    for nm in ("tls_start", "conn_context", "self", "data"):
+                        o = loc.get(nm)
+                        cx = getattr(o, "context", None) if nm != "conn_context" else o
+                        cl = getattr(cx, "client", None)
+                        pn = getattr(cl, "peername", None)
+                        if pn and idx is None:
+                            idx = port2flow.get(pn[1])
+                    t = t.tb_next
+                co = last.tb_frame.f_code if last is not None else None
+                where = f"{os.path.basename(co.co_filename)}:{co.co_name}" if co else "?"
+                obs.flow_crashes.setdefault(idx, []).append({"exc": type(e).__name__, "where": where,
+                                                             "msg": f"{record.getMessage()[:120]} | {e}"[:300]})
+
+        fch = _FlowCrash(level=logging.DEBUG)
+        logging.getLogger().addHandler(fch)
+        w._stack.callback(logging.getLogger().removeHandler, fch)
+
         def planner(host, port, n, proto):
             o = origins.get((str(host).lower(), int(port)))
             if o is None or o.get("refuse"):
@@ -677,6 +729,9 @@ def run(sc: dict, keep_log: bool = False) -> Obs:
                 rec["timeout"] = True
                 ev("origin_timeout", rec["host"], rec["port"])
                 conn.send_eof()
+            except PipeClosed:
+                ev("origin_pipe_closed", rec["host"], rec["port"])
+                conn.send_eof()
 
         async def client(i, fl, rec):
             def stage(s):
@@ -699,7 +754,7 @@ def run(sc: dict, keep_log: bool = False) -> Obs:
                     oep = make_client_endpoint(obs.cafile, sni=ou.get("sni"), verify=ou["verify"],
                                                backend=ou.get("backend", "py"), offers=ou.get("offers", []),
                                                tls12=bool(ou.get("tls12")))
-                    ok, why = await do_handshake(oep, pipe, cuts=ou.get("cuts", ()), gaps=ou.get("gaps", ()),
+                    ok, why = await do_handshake(oep, pipe, cuts=_client_cuts(ou.get("cuts", ())), gaps=ou.get("gaps", ()),
                                                  seg=seg, gap=gap)
                     orec = {"hs": ok, "why": why, "alpn": oep.alpn() if ok else None,
                             "der": oep.peer_der() if ok else None, "version": oep.version() if ok else None}
@@ -730,7 +785,7 @@ def run(sc: dict, keep_log: bool = False) -> Obs:
                 ep = make_client_endpoint(obs.cafile, sni=fl.get("sni"), verify=fl["verify"],
                                           backend=fl.get("backend", "py"), offers=fl.get("offers", []),
                                           tls12=bool(fl.get("tls12")))
-                ok, why = await do_handshake(ep, pipe, cuts=fl.get("cuts", ()), gaps=fl.get("gaps", ()),
+                ok, why = await do_handshake(ep, pipe, cuts=_client_cuts(fl.get("cuts", ())), gaps=fl.get("gaps", ()),
                                              seg=seg, gap=gap)
                 rec["hs"], rec["why"] = ok, why
                 rec["order_hs"] = len(obs.events)
@@ -786,6 +841,8 @@ def run(sc: dict, keep_log: bool = False) -> Obs:
             except PeerTimeout:
                 rec["timeout"] = True
                 stage("timeout")
+            except PipeClosed:
+                stage("pipe_closed")
             finally:
                 c = rec.get("conn")
                 if c is not None:
@@ -841,6 +898,20 @@ def first_crash(obs: Obs):
             "msg": f"t={t:.6f} {msg} {tb}"}
 
 
+def flow_crash(obs: Obs, i):
+    """First exception the proxy logged while working for client connection ``i``
+    (-> None | {"exc", "where", "msg"}).  Exceptions that could not be attributed to a
+    connection count for the only flow of a single-flow run."""
+    lst = obs.flow_crashes.get(i)
+    if not lst and len(obs.flows) == 1:
+        lst = obs.flow_crashes.get(None)
+    if lst:
+        return lst[0]
+    if len(obs.flows) == 1:
+        return first_crash(obs)
+    return None
+
+
 def origin_for(sc, fl):
     for o in sc.get("origins", []):
         if o["host"].lower() == fl["host"].lower() and int(o["port"]) == int(fl["port"]):
@@ -869,7 +940,8 @@ def finish(sc, obs: Obs, violations, probes, nontrivial, states=None, faults=Non
     for c in obs.oconns:
         items.append(("oconn", c["host"], c["port"], c["hs"], c["why"], c["sni"], c["alpn"], c["app_bytes"],
                       c["version"]))
-    items.append(("crashes", [(m, tb) for _, m, tb in obs.world.crashes]))
+    # exception type + site only: the texts may embed wall-clock timestamps of connection objects
+    items.append(("crashes", [(tb.split(":")[0], tb.split(" @ ")[-1]) for _, m, tb in obs.world.crashes]))
     items.append(("violations", sorted((v["class"], repr(sorted(v["key"].items()))) for v in violations)))
     faults = dict(faults or {})
     return {"violations": violations, "digest": W.digest(items), "nontrivial": bool(nontrivial),
